@@ -16,6 +16,8 @@ impl BlockType for usize {
 pub struct IntVector<T = usize> { _p: core::marker::PhantomData<T> }
 
 pub open spec fn blk_bits<T>() -> int { 8 * (size_of::<T>() as int) }
+// value fits into `bits` bits (succinct's check_value: v <= low_mask(bits))
+pub open spec fn fits_bits(v: nat, bits: nat) -> bool { bits >= 64 || v < (1u64 << (bits as u64)) as nat }
 
 impl<T: BlockType> IntVector<T> {
     pub uninterp spec fn view(&self) -> Seq<T>;
@@ -34,10 +36,15 @@ impl<T: BlockType> IntVector<T> {
 
     #[verifier::external_body]
     pub fn with_fill(element_bits: usize, len: u64, value: T) -> (r: Self)
-        requires 1 <= element_bits <= blk_bits::<T>(), value.val() < pow2(element_bits as nat) || element_bits == blk_bits::<T>(),
+        requires 1 <= element_bits <= blk_bits::<T>(), fits_bits(value.val(), element_bits as nat),
         ensures r.element_bits_spec() == element_bits,
             r@.len() == len,
             forall|i: int| 0 <= i < r@.len() ==> #[trigger] r@[i] == value,
+    { unimplemented!() }
+
+    #[verifier::external_body]
+    pub fn clone(&self) -> (r: Self)
+        ensures r@ == self@, r.element_bits_spec() == self.element_bits_spec(), r.block_len_spec() == self.block_len_spec(),
     { unimplemented!() }
 
     #[verifier::external_body]
@@ -60,7 +67,7 @@ impl<T: BlockType> IntVector<T> {
     #[verifier::external_body]
     pub fn set(&mut self, element_index: u64, element_value: T)
         requires element_index < old(self)@.len(),
-            element_value.val() < pow2(old(self).element_bits_spec()) || old(self).element_bits_spec() == blk_bits::<T>(),
+            fits_bits(element_value.val(), old(self).element_bits_spec()),
         ensures final(self)@ == old(self)@.update(element_index as int, element_value),
             final(self).element_bits_spec() == old(self).element_bits_spec(),
             final(self).block_len_spec() == old(self).block_len_spec(),
